@@ -319,13 +319,13 @@ macro_rules! soft_total {
 }
 
 // ------------------------------------------------------------------------------------------------ AES-128
-//@ harness name=soft_ks128 prop=C02,C03,C12 tier=quick bits=128 stub=1 quick=C03 est=100 need=6 desc="W(KS): private key words of Aes128::new(key) == fixslice format of FIPS-197 KeyExpansion(key); all 2^128 keys; S-box uninterpreted (sub_bytes stub = uf^0x63 on the replicated lanes, replication proved; oracle SubWord = uf); everything else real"
+//@ harness name=soft_ks128 prop=C02,C03,C12 tier=quick bits=128 stub=1 quick=C03 est=110 need=6 desc="W(KS): private key words of Aes128::new(key) == fixslice format of FIPS-197 KeyExpansion(key); all 2^128 keys; S-box uninterpreted (sub_bytes stub = uf^0x63 on the replicated lanes, replication proved; oracle SubWord = uf); everything else real"
 soft_ks!(soft_ks128, crate::Aes128, fx::k128, 16, 10, 88);
 //@ harness name=soft_ks128e prop=C02,C03,C12 tier=quick bits=128 stub=1 quick_variants=aes:soft64 est=95 need=6 desc="W(KS): key words of Aes128Enc::new(key) == fixslice format of KeyExpansion(key); all keys (encrypt-only form, own constructor)"
 soft_ks!(soft_ks128e, crate::Aes128Enc, fx::k128e, 16, 10, 88);
 //@ harness name=soft_ks128d prop=C02,C03,C12 tier=quick bits=128 stub=1 quick_variants=aes:soft64 est=95 need=6 desc="W(KS): key words of Aes128Dec::new(key) == fixslice format of KeyExpansion(key); all keys (decrypt-only form, own constructor)"
 soft_ks!(soft_ks128d, crate::Aes128Dec, fx::k128d, 16, 10, 88);
-//@ harness name=soft_enc128 prop=C02,C03,C20 tier=quick bits=1536 stub=1 variants=aes:soft64,aes:soft64c,aes:soft32,aes:soft32c,aes:soft64+hazmat,aes:soft32+hazmat est=160 need=8 desc="W(ENC): Aes128 on the state m_keys(rk): encrypt_block(b) == FIPS-197 Cipher(rk, b); all 11 round keys arbitrary (superset of all keys), all blocks; S-box uninterpreted on lane 0 (shared with the oracle), mix_columns_k replaced by their proved specification ShiftRows^-k o MixColumns o ShiftRows^k on lane 0, padding lanes havocked in every stubbed layer; round sequencing, key offsets, add_round_key, shift_rows_2, batch padding, bitslice / inv_bitslice real"
+//@ harness name=soft_enc128 prop=C02,C03,C20 tier=quick bits=1536 stub=1 variants=aes:soft64,aes:soft64c,aes:soft32,aes:soft32c,aes:soft64+hazmat,aes:soft32+hazmat est=175 need=8 desc="W(ENC): Aes128 on the state m_keys(rk): encrypt_block(b) == FIPS-197 Cipher(rk, b); all 11 round keys arbitrary (superset of all keys), all blocks; S-box uninterpreted on lane 0 (shared with the oracle), mix_columns_k replaced by their proved specification ShiftRows^-k o MixColumns o ShiftRows^k on lane 0, padding lanes havocked in every stubbed layer; round sequencing, key offsets, add_round_key, shift_rows_2, batch padding, bitslice / inv_bitslice real"
 soft_enc!(soft_enc128, fx::mk128, 10, 88);
 //@ harness name=soft_enc128e prop=C02,C03,C12 tier=quick bits=1536 stub=1 quick_variants=aes:soft64 variants=aes:soft64,aes:soft64c,aes:soft32,aes:soft32c,aes:soft64+hazmat,aes:soft32+hazmat est=130 need=8 desc="W(ENC): Aes128Enc on the state m_keys(rk): encrypt_block(b) == FIPS-197 Cipher(rk, b); all round keys, all blocks"
 soft_enc!(soft_enc128e, fx::mk128e, 10, 88);
@@ -337,17 +337,17 @@ soft_dec!(soft_dec128d, fx::mk128d, 10, 88);
 soft_par_enc!(soft_par_enc128, fx::mk128, crate::Aes128, 10, 88);
 //@ harness name=soft_par_dec128 prop=C04,C03 tier=thorough bits=1922 stub=1 est=530 desc="W(PAR): Aes128::decrypt_blocks on one full batch: output block `lane` == InvCipher(rk, input block `lane`), lane symbolic, other lanes havocked; all round keys, all blocks"
 soft_par_dec!(soft_par_dec128, fx::mk128, crate::Aes128, 10, 88);
-//@ harness name=soft_parl_enc128 prop=C04,C03 tier=quick bits=1920 stub=1 variants=aes:soft64,aes:soft64c,aes:soft32,aes:soft32c quick_variants=aes:soft64 est=170 need=8 desc="W(PAR, fixed lane): Aes128::encrypt_blocks on one full batch: the LAST output block == Cipher(rk, last input block) with all other lanes havocked in every stubbed layer (so it depends on no other block); all round keys, all blocks"
+//@ harness name=soft_parl_enc128 prop=C04,C03 tier=quick bits=1920 stub=1 variants=aes:soft64,aes:soft64c,aes:soft32,aes:soft32c quick_variants=aes:soft64 est=215 need=8 desc="W(PAR, fixed lane): Aes128::encrypt_blocks on one full batch: the LAST output block == Cipher(rk, last input block) with all other lanes havocked in every stubbed layer (so it depends on no other block); all round keys, all blocks"
 soft_parl_enc!(soft_parl_enc128, fx::mk128, crate::Aes128, 10, 88);
-//@ harness name=soft_parl_dec128 prop=C04,C03 tier=quick bits=1920 stub=1 variants=aes:soft64,aes:soft64c,aes:soft32,aes:soft32c quick_variants=aes:soft64 est=270 need=10 desc="W(PAR, fixed lane): Aes128::decrypt_blocks on one full batch: the LAST output block == InvCipher(rk, last input block), other lanes havocked; all round keys, all blocks"
+//@ harness name=soft_parl_dec128 prop=C04,C03 tier=quick bits=1920 stub=1 variants=aes:soft64,aes:soft64c,aes:soft32,aes:soft32c quick_variants=aes:soft64 est=225 need=10 desc="W(PAR, fixed lane): Aes128::decrypt_blocks on one full batch: the LAST output block == InvCipher(rk, last input block), other lanes havocked; all round keys, all blocks"
 soft_parl_dec!(soft_parl_dec128, fx::mk128, crate::Aes128, 10, 88);
 //@ harness name=soft_conv128 prop=C12 tier=quick bits=5632 est=15 desc="D: Aes128::from(&enc), Aes128::from(enc), Aes128Dec::from(&enc), Aes128Dec::from(enc) and Clone of all three forms carry exactly the key words of the source; arbitrary key words (superset of all keys)"
 soft_conv!(soft_conv128, fx::mk128e, fx::k128, fx::k128e, fx::k128d, crate::Aes128, crate::Aes128Dec, 88);
-//@ harness name=soft_total128 prop=C20 tier=quick bits=5760 est=90 need=6 desc="D: Aes128 encrypt_block and decrypt_block return (no overflow / bounds / debug_assert failure) on ARBITRARY key words (not only reachable ones) and every block; real S-box circuits"
+//@ harness name=soft_total128 prop=C20 tier=quick bits=5760 est=95 need=6 desc="D: Aes128 encrypt_block and decrypt_block return (no overflow / bounds / debug_assert failure) on ARBITRARY key words (not only reachable ones) and every block; real S-box circuits"
 soft_total!(soft_total128, fx::mk128, 88);
 
 // ------------------------------------------------------------------------------------------------ AES-192
-//@ harness name=soft_ks192 prop=C02,C03,C12 tier=quick bits=192 stub=1 variants=aes:soft64,aes:soft64c,aes:soft32,aes:soft32c quick=C03 est=90 need=5 desc="W(KS): key words of Aes192::new(key) == fixslice format of FIPS-197 KeyExpansion(key) (Nk = 6: the shifted/masked half-key recombination of aes192_key_schedule); all 2^192 keys; S-box uninterpreted"
+//@ harness name=soft_ks192 prop=C02,C03,C12 tier=quick bits=192 stub=1 variants=aes:soft64,aes:soft64c,aes:soft32,aes:soft32c quick=C03 est=100 need=5 desc="W(KS): key words of Aes192::new(key) == fixslice format of FIPS-197 KeyExpansion(key) (Nk = 6: the shifted/masked half-key recombination of aes192_key_schedule); all 2^192 keys; S-box uninterpreted"
 soft_ks!(soft_ks192, crate::Aes192, fx::k192, 24, 12, 104);
 //@ harness name=soft_ks192e prop=C02,C03,C12 tier=thorough bits=192 stub=1 est=160 variants=aes:soft64,aes:soft64c,aes:soft32,aes:soft32c desc="W(KS): key words of Aes192Enc::new(key) == fixslice format of KeyExpansion(key); all keys"
 soft_ks!(soft_ks192e, crate::Aes192Enc, fx::k192e, 24, 12, 104);
@@ -367,11 +367,11 @@ soft_par_enc!(soft_par_enc192, fx::mk192, crate::Aes192, 12, 104);
 soft_par_dec!(soft_par_dec192, fx::mk192, crate::Aes192, 12, 104);
 //@ harness name=soft_conv192 prop=C12 tier=quick bits=6656 variants=aes:soft64,aes:soft64c,aes:soft32,aes:soft32c est=15 desc="D: Aes192 / Aes192Dec From<Aes192Enc>, From<&Aes192Enc> and Clone carry exactly the key words of the source; arbitrary key words"
 soft_conv!(soft_conv192, fx::mk192e, fx::k192, fx::k192e, fx::k192d, crate::Aes192, crate::Aes192Dec, 104);
-//@ harness name=soft_total192 prop=C20 tier=quick bits=6784 variants=aes:soft64,aes:soft64c,aes:soft32,aes:soft32c est=100 need=6 desc="D: Aes192 encrypt_block and decrypt_block return on arbitrary key words and every block; real S-box circuits"
+//@ harness name=soft_total192 prop=C20 tier=quick bits=6784 variants=aes:soft64,aes:soft64c,aes:soft32,aes:soft32c est=90 need=6 desc="D: Aes192 encrypt_block and decrypt_block return on arbitrary key words and every block; real S-box circuits"
 soft_total!(soft_total192, fx::mk192, 104);
 
 // ------------------------------------------------------------------------------------------------ AES-256
-//@ harness name=soft_ks256 prop=C02,C03,C12 tier=quick bits=256 stub=1 variants=aes:soft64,aes:soft64c,aes:soft32,aes:soft32c quick=C03 est=145 need=7 desc="W(KS): key words of Aes256::new(key) == fixslice format of FIPS-197 KeyExpansion(key) (Nk = 8: the extra SubWord step without rotation); all 2^256 keys; S-box uninterpreted"
+//@ harness name=soft_ks256 prop=C02,C03,C12 tier=quick bits=256 stub=1 variants=aes:soft64,aes:soft64c,aes:soft32,aes:soft32c quick=C03 est=165 need=7 desc="W(KS): key words of Aes256::new(key) == fixslice format of FIPS-197 KeyExpansion(key) (Nk = 8: the extra SubWord step without rotation); all 2^256 keys; S-box uninterpreted"
 soft_ks!(soft_ks256, crate::Aes256, fx::k256, 32, 14, 120);
 //@ harness name=soft_ks256e prop=C02,C03,C12 tier=thorough bits=256 stub=1 est=200 variants=aes:soft64,aes:soft64c,aes:soft32,aes:soft32c desc="W(KS): key words of Aes256Enc::new(key) == fixslice format of KeyExpansion(key); all keys"
 soft_ks!(soft_ks256e, crate::Aes256Enc, fx::k256e, 32, 14, 120);
@@ -391,5 +391,5 @@ soft_par_enc!(soft_par_enc256, fx::mk256, crate::Aes256, 14, 120);
 soft_par_dec!(soft_par_dec256, fx::mk256, crate::Aes256, 14, 120);
 //@ harness name=soft_conv256 prop=C12 tier=quick bits=7680 variants=aes:soft64,aes:soft64c,aes:soft32,aes:soft32c est=15 desc="D: Aes256 / Aes256Dec From<Aes256Enc>, From<&Aes256Enc> and Clone carry exactly the key words of the source; arbitrary key words"
 soft_conv!(soft_conv256, fx::mk256e, fx::k256, fx::k256e, fx::k256d, crate::Aes256, crate::Aes256Dec, 120);
-//@ harness name=soft_total256 prop=C20 tier=quick bits=7808 variants=aes:soft64,aes:soft64c,aes:soft32,aes:soft32c est=120 need=8 desc="D: Aes256 encrypt_block and decrypt_block return on arbitrary key words and every block; real S-box circuits"
+//@ harness name=soft_total256 prop=C20 tier=quick bits=7808 variants=aes:soft64,aes:soft64c,aes:soft32,aes:soft32c est=140 need=8 desc="D: Aes256 encrypt_block and decrypt_block return on arbitrary key words and every block; real S-box circuits"
 soft_total!(soft_total256, fx::mk256, 120);
